@@ -4,9 +4,10 @@
 
 enum { VH_MAXWALK = NS + NSPARE + 2 };
 
+static bool in_stream(const World &w, const Slot *x);
 // INV_stream: next from m_first visits exactly m_numGlyphs slots of this segment, ends at m_last, prev is the inverse,
 // and no slot of the stream is on the free list.
-static inline bool inv_stream(const World &w) {
+static __attribute__((noinline)) bool inv_stream(const World &w) {
   const Segment *seg = w.seg;
   const Slot *s = seg->m_first, *prev = 0; size_t n = 0;
   for (unsigned k = 0; k < VH_MAXWALK && s; ++k) {
@@ -18,28 +19,24 @@ static inline bool inv_stream(const World &w) {
   if (n != seg->m_numGlyphs || seg->m_last != prev) return false;
   // free list disjoint from the stream
   const Slot *f = seg->m_freeSlots;
-  for (unsigned k = 0; k < VH_MAXWALK && f; ++k) {
-    const Slot *t = seg->m_first;
-    for (unsigned j = 0; j < VH_MAXWALK && t; ++j) { if (t == f) return false; t = t->m_next; }
-    f = f->m_next;
-  }
+  for (unsigned k = 0; k < VH_MAXWALK && f; ++k) { if (in_stream(w, f)) return false; f = f->m_next; }
   return true;
 }
 
-static inline bool in_stream(const World &w, const Slot *x) {
+static __attribute__((noinline)) bool in_stream(const World &w, const Slot *x) {
   const Slot *t = w.seg->m_first;
   for (unsigned j = 0; j < VH_MAXWALK && t; ++j) { if (t == x) return true; t = t->m_next; }
   return false;
 }
 
-static inline unsigned stream_pos(const World &w, const Slot *x) {
+static __attribute__((noinline)) unsigned stream_pos(const World &w, const Slot *x) {
   const Slot *t = w.seg->m_first; unsigned j = 0;
   for (; j < VH_MAXWALK && t; ++j) { if (t == x) return j; t = t->m_next; }
   return 0xffff;
 }
 
 // INV_assoc: every live slot's before/after/original index a char-info
-static inline bool inv_assoc(const World &w) {
+static __attribute__((noinline)) bool inv_assoc(const World &w) {
   const Slot *t = w.seg->m_first;
   for (unsigned j = 0; j < VH_MAXWALK && t; ++j) {
     if (t->m_before >= NC || t->m_after >= NC || t->m_original >= NC) return false;
@@ -50,31 +47,40 @@ static inline bool inv_assoc(const World &w) {
 
 // INV_forest over the slot array: parent chains acyclic and inside the array; x->parent == p  <=>  x occurs exactly once in
 // p's child/sibling chain; chains are duplicate-free and NULL-terminated.  'skip' (may be 0) is ignored as a chain owner.
-static inline bool inv_forest(const World &w) {
+static __attribute__((noinline)) bool forest_parent_chain_ok(const World &w, const Slot *x) {
+  const unsigned T = NS + NSPARE;
+  const Slot *p = x->m_parent;
+  for (unsigned k = 0; k < T + 1 && p; ++k) { if (!vh_in_slots(w, p)) return false; p = p->m_parent; }
+  return p == 0;
+}
+static __attribute__((noinline)) bool chain_has(const Slot *head, const Slot *y, unsigned upto) {
+  const Slot *d = head;
+  for (unsigned m = 0; m < upto && d; ++m) { if (d == y) return true; d = d->m_sibling; }
+  return false;
+}
+static __attribute__((noinline)) bool forest_child_chain_ok(const World &w, const Slot *x) {
+  const unsigned T = NS + NSPARE;
+  const Slot *c = x->m_child;
+  for (unsigned k = 0; k < T + 1 && c; ++k) {
+    if (!vh_in_slots(w, c) || c->m_parent != x) return false;
+    if (chain_has(x->m_child, c, k)) return false;        // duplicate
+    c = c->m_sibling;
+  }
+  return c == 0;
+}
+static __attribute__((noinline)) bool forest_children_listed(const World &w, const Slot *x) {
+  const unsigned T = NS + NSPARE;
+  for (unsigned j = 0; j < T; ++j) {
+    const Slot *y = w.sl[j];
+    if (y->m_parent == x && !chain_has(x->m_child, y, T + 1)) return false;
+  }
+  return true;
+}
+static __attribute__((noinline)) bool inv_forest(const World &w) {
   const unsigned T = NS + NSPARE;
   for (unsigned i = 0; i < T; ++i) {
     const Slot *x = w.sl[i];
-    // parent chain terminates
-    const Slot *p = x->m_parent; unsigned k = 0;
-    for (; k < T + 1 && p; ++k) { if (!vh_in_slots(w, p)) return false; p = p->m_parent; }
-    if (p) return false;
-    // child chain: every member names x as parent, chain terminates, no duplicates
-    const Slot *c = x->m_child; unsigned n = 0;
-    for (k = 0; k < T + 1 && c; ++k) {
-      if (!vh_in_slots(w, c) || c->m_parent != x) return false;
-      const Slot *d = x->m_child;
-      for (unsigned j = 0; j < k; ++j) { if (d == c) return false; d = d->m_sibling; }
-      c = c->m_sibling; ++n;
-    }
-    if (c) return false;
-    // every slot whose parent is x occurs in x's chain
-    for (unsigned j = 0; j < T; ++j) {
-      const Slot *y = w.sl[j];
-      if (y->m_parent != x) continue;
-      bool found = false; const Slot *d = x->m_child;
-      for (unsigned m = 0; m < T + 1 && d; ++m) { if (d == y) found = true; d = d->m_sibling; }
-      if (!found) return false;
-    }
+    if (!forest_parent_chain_ok(w, x) || !forest_child_chain_ok(w, x) || !forest_children_listed(w, x)) return false;
   }
   return true;
 }
